@@ -1142,6 +1142,12 @@ impl<F: RichField + Extendable<D>, const D: usize> CircuitBuilder<F, D> {
             fri_params.total_arities() <= degree_bits + rate_bits - cap_height,
             "FRI total reduction arity is too large.",
         );
+        // The final FRI polynomial has `degree_bits - total_arities` bits; reducing any further
+        // would leave the prover with an empty final polynomial that no verifier accepts.
+        assert!(
+            fri_params.total_arities() <= degree_bits,
+            "FRI total reduction arity is too large: it exceeds the degree bits.",
+        );
 
         let quotient_degree_factor = self.config.max_quotient_degree_factor;
         let mut gates = self.gates.iter().cloned().collect::<Vec<_>>();
